@@ -164,6 +164,11 @@ func main() {
 	if prop == "C08" {
 		c08NarrowClosureArgs(rep)
 		c08BothMembers(rep)
+		// the same 1300 calls in flight on either API: all reach their handlers, all complete (a bound on handlers in
+		// flight stalls the stream API's single decoder for good once nested calls are involved)
+		for _, api := range apis() {
+			c16ManyInFlight(rep, prop, api, 1300)
+		}
 	}
 	switch prop {
 	case "C01", "C10", "C11", "C17":
